@@ -70,6 +70,10 @@ def check(case):
         with numpy.errstate(all="ignore"):
             cond = numpy.linalg.cond(U)
         tol = numpy.minimum(1e-10 * cond, 1e-6)
+        # round-off of the product itself: sum_k |U_ik| |L_kj| * 64 eps (cells of 1e-10 m next to an
+        # X-point have components of 1e+19 and 1e-19 whose products cancel to 1)
+        mag = numpy.einsum("...ij,...jk->...ik", numpy.abs(U), numpy.abs(L)).max(axis=(-1, -2))
+        tol = numpy.maximum(tol, 64 * 2.2e-16 * mag)
         r = float(numpy.nanmax(res / tol))
         margin("inverse" + loc, r)
         if not r <= 1.0:
